@@ -133,4 +133,14 @@ def Op.namesOk : Op → Bool
   | .setData _ path _ => path.all nameOk
   | .setAttr _ path _ _ => path.all nameOk
 
+/-- the (quoted) name has no literal `%2E`: `DatasetType.__setitem__` would not see a `.` in it -/
+def nameEsc (n : Str) : Bool := (splitOn dot (rep3 [37] [50] [69] dot n)).length == 1
+
+/-- the scope of the history theorems (`Props/C12.lean`): a variable is constructed with a name whose quoted
+    form has no `.` (a raw `.` survives only inside a `dap4` prefix) and no literal `%2E`; the arguments of all
+    other operations are unrestricted -/
+def Op.scope : Op → Bool
+  | .new _ name _ => !(quote name).contains dot && nameEsc (quote name)
+  | _ => true
+
 end Pydap.Tree
